@@ -1,7 +1,7 @@
 (* C01 — container round trip is lossless for every tile set and every format. *)
 From Coq Require Import List NArith ZArith Lia.
 From VT Require Import Base.Outcome Gen.Constants Model.BBox Proofs.BBoxProofs Model.MVT Model.TileId Proofs.TileIdProofs
-  Model.PMDir Proofs.PMDirProofs Model.VTFormat Proofs.VTFormatProofs Model.VTBlock Proofs.VTBlockProofs.
+  Model.PMDir Proofs.PMDirProofs Model.VTFormat Proofs.VTFormatProofs Model.VTBlock Proofs.VTBlockProofs Model.Naming Proofs.NamingProofs.
 Import ListNotations.
 
 (* index arithmetic in the source is the 64-bit variant the theorems are about *)
@@ -69,6 +69,14 @@ Theorem C01_pmtiles_two_level :
     pm_lookup pm_arith_variant (S (S d)) leaffn (root_of leaves) t = Ok (Some e).
 Proof. exact (two_level_lookup pm_arith_variant). Qed.
 Print Assumptions C01_pmtiles_two_level.
+
+(* tar / directory: the member name `z/x/y<.format>[.gz|.br]` the writers produce is read back to the
+   same coordinate, format (all ten) and compression, for every coordinate a tile can have *)
+Theorem C01_member_names :
+  forall z x y f c, (z <= 31)%N -> (x <= 4294967295)%N -> (y <= 4294967295)%N -> (f < 10)%N -> (c <= 2)%N ->
+    parse_member (render_member true z x y f c) = Some (z, x, y, f, c).
+Proof. exact (member_roundtrip true). Qed.
+Print Assumptions C01_member_names.
 
 (* mbtiles: the TMS row flip applied on write and on read is an involution *)
 Theorem C01_mbtiles_flip :
